@@ -195,8 +195,10 @@ theorem shrink_to_spec (E : Env) (m : Nat) (s : GS) :
     · simp [h2]
     · simp only [h2, if_false]
       by_cases h3 : s.C < m
-      · simp [h3]
-      · simp only [h3, if_false]
+      · have h3' : s.C ≤ m := by omega      -- (`<` and `≤` coincide here: the case `s.C = m` has returned)
+        simp [h3, h3']
+      · have h3' : ¬ s.C ≤ m := by omega
+        simp only [h3, h3', if_false]
         cases grow E m (s.A E) s with
         | mk r s' => cases r <;> simp
 
